@@ -268,7 +268,16 @@ def main():
     else:
         tier_run = tier
     if tier == "thorough" and not args.replay and not po["broken"]:
-        ok, log = leanchecker(spec.lean_modules)
+        tie_mods = []
+        if ftie and ftie["status"] == "proved":
+            tie_mods.append(props.SRC_MODULE)
+        if ttie and ttie["status"] == "proved":
+            tie_mods.append(props.TAB_MODULE)
+        if dtie and dtie["status"] == "proved":
+            tie_mods.append(props.DEC_MODULE)
+        if wtie and wtie["status"] == "proved":
+            tie_mods.append(props.REP_MODULE)
+        ok, log = leanchecker(spec.lean_modules + tie_mods)
         po["leanchecker"] = "ok" if ok else log
         if not ok:
             po["broken"].append("leanchecker rejects the compiled module: " + log[-500:])
